@@ -71,7 +71,7 @@ def _one_case(r, i):
          "difference_bound": r.choice([0.01, 0.05, 0.1, 0.25]),
          "ratio_bound": r.choice([0.5, 0.8, 0.9, 1.0]), "ratio_slack": r.choice([0.0, 0.0, 0.05, 0.125]),
          "eps": r.choice([0.2, 0.1, 0.05]), "max_iter": r.choice([1, 3, 8, 30]),
-         "lp": r.chance(1, 2), "eta0": r.choice([0.5, 2.0]), "nu": r.choice([None, 0.01])}
+         "lp": r.chance(1, 2), "eta0": r.choice([0.5, 2.0]), "nu": r.choice([None, 0.01, None, 0.01, 0.0, 1e-6])}
     return c
 
 
@@ -291,9 +291,11 @@ def compare(case, out, model):
             f"order: {out.get('pmf1_rev')}) but the weights_-mixture of predictors_ gives {out['mix']}", "_pmf_predict = [1 - m, m] with m = sum_t weights_[t] * predictors_[t](X)")
     # (iv) early stop only below nu (and not before _MIN_ITER)
     if out["last_iter"] < case["max_iter"] - 1:
-        if not g < out["nu"]:
+        # the threshold that was REQUESTED (the constructor value; the automatic one only when nu=None)
+        nu_req = out["nu"] if case["nu"] is None else case["nu"]
+        if not g < nu_req:
             bad("fit", "best_gap_", "early-stop-above-nu", f"stopped at iteration {out['last_iter']} of "
-                f"{case['max_iter']} with best_gap_ = {g!r} >= nu = {out['nu']!r}",
+                f"{case['max_iter']} with best_gap_ = {g!r} >= requested nu = {nu_req!r}",
                 "last_iter_ < max_iter - 1  =>  best_gap_ < nu")
         if out["last_iter"] < 5:
             bad("fit", "last_iter_", "stop-before-min-iter", f"stopped at iteration {out['last_iter']} < _MIN_ITER",
